@@ -7,7 +7,8 @@ import Rare.Proofs.C14F64
 `|min|, |max| ≤ 2^53` and `(max - min) * 5 ≤ 2^53` (`LinExact`; every range within `±2^49` is one): `float64(min)`, `float64(max)`, `math.Floor/Ceil` of them, the span `maxf - minf` and the
 products `span * float64(i)` (`i ≤ 5`, below `2^53`) are all EXACT; the quotient by `float64(5)` and the sum with `minf`
 round once each, and rounding is monotone and fixes the floats `min`, `max` – so the six raw values are non-decreasing,
-the first is `min` and the last is `max`.
+the first is `min` and the last is `max`.  For `max ≤ min` (all cells equal) `remapMinMax` widens the range to `[min, min + 1]` and the
+legend is exactly `min`, `min + 1` (`scaleKeys_linear_f64_deg`).
 -/
 namespace Rare.C14
 open Rare Rare.F64
@@ -255,5 +256,87 @@ theorem scaleKeys_linear_f64 (L2 L10 P2 P10 : F64 → F64) (mn mx : Int) (hlt : 
     have hi' : i < 6 := List.mem_range.mp hi
     rw [(key i (by omega)).1]
     exact (key i (by omega)).2
+
+/-! ### degenerate and reversed ranges (`max ≤ min`): the range is widened to `[min, min + 1]` -/
+
+/-- the raw values of the linear legend on binary64 for a degenerate or reversed range (`max ≤ min`): `remapMinMax` widens
+it to `[min, min + 1]` -/
+theorem rawKeys_linear_f64_deg (L2 L10 P2 P10 : F64 → F64) (mn mx : Int) (hle : mx ≤ mn) :
+    rawKeys (f64Arith L2 L10 P2 P10) .linear 6 mn mx =
+      (List.range 6).map fun (i : Nat) => toInt64 (linStepF (floor (ofInt mn)) (ceil (ofInt (wrap64 (mn + 1)))) i) := by
+  have hr : remapMinMax (f64Arith L2 L10 P2 P10) .linear mn mx = (floor (ofInt mn), ceil (ofInt (wrap64 (mn + 1)))) := by
+    unfold remapMinMax
+    simp only [hle, if_true, mapVal, f64Arith]
+  unfold rawKeys
+  rw [hr]
+  have e1 : (6 : Int).toNat = 6 := by decide
+  have e2 : (6 : Int) - 1 = 5 := by decide
+  simp only [e1, e2, unmapVal, f64Arith, linStepF]
+
+/-- the keys of a legend whose raw values are `toInt64 (linStepF a b i)` with exact ends `lo < hi` in `LinExact` -/
+theorem linKeys_of_raw {A : Arith F64} {k : Scaler} {mn mx : Int} {a b : F64} {lo hi : Int}
+    (hraw : rawKeys A k 6 mn mx = (List.range 6).map fun (i : Nat) => toInt64 (linStepF a b i))
+    (ha : a.toRat? = some (lo : Rat)) (hb : b.toRat? = some (hi : Rat)) (hlt : lo < hi) (hx : LinExact lo hi) :
+    (scaleKeys A k 6 mn mx).Pairwise (· < ·) ∧ (scaleKeys A k 6 mn mx).head? = some lo ∧
+    (scaleKeys A k 6 mn mx).getLast? = some hi ∧ (∀ x ∈ scaleKeys A k 6 mn mx, lo ≤ x ∧ x ≤ hi) := by
+  have h64 : minInt64 ≤ lo ∧ hi ≤ maxInt64 := by unfold LinExact at hx; unfold minInt64 maxInt64; omega
+  have key : ∀ i, i ≤ 5 → toInt64 (linStepF a b i) = truncRat (linStepF a b i).toRat ∧
+      lo ≤ truncRat (linStepF a b i).toRat ∧ truncRat (linStepF a b i).toRat ≤ hi := by
+    intro i hi'
+    obtain ⟨f, b1, b2, _, _⟩ := linStepF_val ha hb hx hlt i hi'
+    exact toInt64_between f b1 b2 h64.1 h64.2
+  have kmono : ∀ i j, i ≤ j → j ≤ 5 → toInt64 (linStepF a b i) ≤ toInt64 (linStepF a b j) := by
+    intro i j hij hj
+    rw [(key i (by omega)).1, (key j hj).1]
+    exact truncRat_mono (linStepF_mono ha hb hx hlt hij hj)
+  have k0 : toInt64 (linStepF a b 0) = lo := by
+    rw [(key 0 (by omega)).1, (linStepF_val ha hb hx hlt 0 (by omega)).2.2.2.1 rfl, truncRat_intCast]
+  have k5 : toInt64 (linStepF a b 5) = hi := by
+    rw [(key 5 (by omega)).1, (linStepF_val ha hb hx hlt 5 (by omega)).2.2.2.2 rfl, truncRat_intCast]
+  obtain ⟨_, _, _, hh, hl⟩ := scaleKeys_shape A k 6 mn mx (by decide)
+  have hr6 : List.range 6 = [0, 1, 2, 3, 4, 5] := by decide
+  have hsorted : (rawKeys A k 6 mn mx).Pairwise (· ≤ ·) := by
+    rw [hraw, List.pairwise_map]
+    have hp : (List.range 6).Pairwise (fun a b => a < b ∧ b < 6) := by rw [hr6]; decide
+    exact List.Pairwise.imp (fun {a b} hab => kmono a b (Nat.le_of_lt hab.1) (by omega)) hp
+  refine ⟨?_, ?_, ?_, ?_⟩
+  · rw [scaleKeys_eq]
+    exact (dedupFrom_sorted _ none hsorted (by intro a ha; cases ha)).1
+  · rw [hh, hraw, hr6]; simp [k0]
+  · rw [hl, hraw, hr6]; simp [k5]
+  · intro x hxm
+    rw [scaleKeys_eq] at hxm
+    have := dedupFrom_mem _ none x hxm
+    rw [hraw] at this
+    obtain ⟨i, hi', rfl⟩ := List.mem_map.mp this
+    have hi'' : i < 6 := List.mem_range.mp hi'
+    rw [(key i (by omega)).1]
+    exact (key i (by omega)).2
+
+/-- a strictly increasing integer list from `n` to `n + 1` inside `[n, n + 1]` is `[n, n + 1]` -/
+theorem two_keys {l : List Int} {n : Int} (hp : l.Pairwise (· < ·)) (hh : l.head? = some n) (hl : l.getLast? = some (n + 1))
+    (hin : ∀ x ∈ l, n ≤ x ∧ x ≤ n + 1) : l = [n, n + 1] := by
+  match l, hp, hh, hl, hin with
+  | [], _, hh, _, _ => simp at hh
+  | [x], _, hh, hl, _ => simp at hh hl; omega
+  | [x, y], _, hh, hl, _ => simp at hh hl; rw [hh, hl]
+  | x :: y :: z :: r, hp, hh, _, hin =>
+    exfalso
+    simp at hh
+    have hxy : x < y := (List.pairwise_cons.mp hp).1 y (by simp)
+    have hyz : y < z := (List.pairwise_cons.mp (List.pairwise_cons.mp hp).2).1 z (by simp)
+    have hz := (hin z (by simp)).2
+    omega
+
+/-- DEGENERATE OR REVERSED RANGE on binary64 (`max ≤ min`, e.g. every cell holds the same value): the legend is exactly the two
+numbers `min`, `min + 1` -/
+theorem scaleKeys_linear_f64_deg (L2 L10 P2 P10 : F64 → F64) (mn mx : Int) (hle : mx ≤ mn)
+    (hmn : -9007199254740992 ≤ mn) (hmn' : mn < 9007199254740992) :
+    scaleKeys (f64Arith L2 L10 P2 P10) .linear 6 mn mx = [mn, mn + 1] := by
+  have hw : wrap64 (mn + 1) = mn + 1 := by unfold wrap64; omega
+  have ha : (floor (ofInt mn)).toRat? = some (mn : Rat) := floor_ofInt (by omega)
+  have hb : (ceil (ofInt (wrap64 (mn + 1)))).toRat? = some ((mn + 1 : Int) : Rat) := by rw [hw]; exact ceil_ofInt (by omega)
+  obtain ⟨p, h, l, i⟩ := linKeys_of_raw (rawKeys_linear_f64_deg L2 L10 P2 P10 mn mx hle) ha hb (by omega) ⟨hmn, by omega, by omega⟩
+  exact two_keys p h l i
 
 end Rare.C14
